@@ -631,15 +631,54 @@ DEFAULT_NOTE = ("Trusted: Coq kernel; extraction (ExtrOcamlBasic); the hand-writ
 NOT_CLAIMED = {}
 
 
+# which models the theorems of a property are about, and what ties them to /repo on every run
+SCOPE = {
+    "Atomic": "the Atomic model (one API operation = one atomic step; any history length, capacity, number of handles, blocked callers and futures; by induction over executions)",
+    "Sig": "the signal hand-off protocol model Sig.v (every reachable protocol state, computed and proved closed inside Coq, for the role orderings regenerated from the current source)",
+    "Mutex": "the lock model Mutex.v (any number of threads, every interleaving, any number of retries; for the orderings regenerated from the current source)",
+    "Lock": "the lock-discipline automata regenerated from the current source (LockDiscipline.v: abstract interpreter proved sound, every path of every entry point)",
+    "Reduce": "Reduce.v / AtomicReduce.v (any interleaving of lock events and critical sections equals its serialisation; instantiated with the atomic channel)",
+    "Ptr": "the byte-level KanalPtr model over the size dispatch regenerated from the current source (every size of T, by size class)",
+    "Traits": "the Send/Sync derivation model over the struct fields and unsafe impls regenerated from the current source",
+    "Deadline": "the clock model of wait_timeout (Deadline.v)",
+}
+TIES = {
+    "h1": "H1 differential of random + corpus call histories against the real crate",
+    "h2": "H2 scheduled multi-threaded runs of the real crate judged by the extracted models (Sig.sstep, Mutex.mstep, Atomic.astep outcome inclusion), lock counts, happens-before detector, ledger",
+    "kx": "kx translator (canonical event automata of signal.rs / mutex.rs / backoff.rs equal to the pinned ones; role orderings; lock-discipline automata; size dispatch)",
+    "rustc": "rustc's own 56 Send/Sync verdicts compared with the model's table (exhaustive)",
+}
+MODELS_OF = {
+    "C01": (["Atomic"], ["h1", "h2"]), "C02": (["Atomic"], ["h1", "h2"]),
+    "C03": (["Lock", "Mutex", "Sig", "Reduce"], ["kx", "h2", "h1"]),
+    "C04": (["Ptr", "Sig"], ["kx", "h1", "h2"]), "C05": (["Atomic"], ["h1", "h2"]),
+    "C06": (["Atomic", "Sig", "Lock"], ["kx", "h1", "h2"]), "C07": (["Sig"], ["kx", "h2"]),
+    "C08": (["Atomic"], ["h1", "h2"]), "C09": (["Atomic", "Sig"], ["h1", "h2"]), "C10": (["Atomic"], ["h1", "h2"]),
+    "C11": (["Atomic"], ["h1", "h2"]), "C12": (["Atomic"], ["h1", "h2"]),
+    "C13": (["Atomic", "Sig", "Deadline"], ["kx", "h1", "h2"]), "C14": (["Atomic", "Lock", "Mutex"], ["kx", "h1", "h2"]),
+    "C15": (["Atomic", "Sig"], ["h1", "h2"]), "C16": (["Atomic"], ["h1", "h2"]),
+    "C17": (["Mutex"], ["kx", "h2"]), "C18": (["Atomic"], ["h1"]), "C19": (["Atomic", "Lock"], ["kx", "h1", "h2"]),
+    "C20": (["Traits"], ["kx", "rustc"]),
+}
+
+
 def default_level_text(pid, thms):
     if thms:
-        return ("Theorems %s proved in Coq for all executions of the Atomic model (any history length, capacity, number of "
-                "handles/futures); the model is tied to /repo on every run by the H1 differential against the real crate." % ", ".join(thms))
+        ms, ts = MODELS_OF.get(pid, (["Atomic"], ["h1"]))
+        return ("Theorems %s proved in Coq (no axioms) about %s. Tied to /repo on every run by: %s." %
+                (", ".join(thms), "; ".join(SCOPE[m] for m in ms), "; ".join(TIES[t] for t in ts)))
     return ("Correspondence only so far: the executable Coq model Atomic.astep and the real crate agree on every observable of "
             "random single-threaded call histories; the theorems for this property are not written yet.")
 
 
 def default_technique(pid, thms):
     if thms:
-        return "Coq proof (invariants by induction over executions of the Atomic model) + model/implementation differential (H1)"
+        ms, ts = MODELS_OF.get(pid, (["Atomic"], ["h1"]))
+        short = {"Atomic": "induction over executions of the Atomic model", "Sig": "reflexive closure of the finite signal-protocol state space",
+                 "Mutex": "invariant of the lock model", "Lock": "proved-sound abstract interpretation of regenerated lock-discipline automata",
+                 "Reduce": "lock-reduction (serialisation) theorem", "Ptr": "case analysis on the size class over the regenerated dispatch",
+                 "Traits": "case analysis of the trait-derivation model", "Deadline": "clock model of the timed wait"}
+        tie = {"h1": "H1 model/implementation differential", "h2": "H2 scheduled executions judged by the extracted models",
+               "kx": "translator-regenerated facts re-checked by coqc", "rustc": "rustc verdict comparison"}
+        return "Coq proof (%s); tie: %s" % ("; ".join(short[m] for m in ms), ", ".join(tie[t] for t in ts))
     return "differential testing of the crate against an executable Coq model (theorems pending)"
